@@ -245,6 +245,9 @@ def run(tier: str, seed: int) -> int:
                     chk.nontrivial_case(hash(repr(rec)))
     finally:
         shutil.rmtree(tmp, ignore_errors=True)
+    # cross-feature histories (World.tla, TLC -simulate) - provenances pack_partitions / parquet / compute / filter chains
+    from . import world
+    world.stage(chk, quick, seed)
     if bad and len(chk.violations) == before:
         raise MachineryError("MC_DaskFrame: invariant violated but every behaviour replays correctly: DaskFrame.tla mis-describes the mechanism\n"
                              + bad[0].out[bad[0].out.index("Error:"):][:1500])
